@@ -2,4 +2,7 @@ SPECIFICATION Spec
 CONSTANT N = 3
 INVARIANT OraclesAgree
 INVARIANT BoundHolds
+INVARIANT RecAgrees
+INVARIANT DualCertifies
+INVARIANT CertificateExists
 CHECK_DEADLOCK FALSE
